@@ -915,6 +915,8 @@ func (g *generator) nextInner() Op {
 					if t := g.currentTargetRef(g.pick(match), keptRel); t >= -1 {
 						op.Tgt = t
 					}
+				} else if !faulty && g.pct(50) {
+					op.Tgt = -1 // the explicit zero target: every matching entity is reset, none keeps its target
 				}
 			case len(rem) == 0 && g.pct(50):
 				op.Api = "Batch.Add"
@@ -1795,8 +1797,11 @@ func (g *generator) mixedBatchPlan() []Op {
 		child(p1), child(p2), child(p2)}
 	f := &FSpec{K: "excl", Ids: []int{rel}, Tgt: -1}
 	tgt := p1
-	if g.pct(30) {
+	switch r := g.rng.Intn(10); {
+	case r < 3:
 		tgt = p2
+	case r < 6:
+		tgt = -1 // the explicit zero target: both tables are reset
 	}
 	op := Op{Op: "BatchExchange", Api: "Relations.ExchangeBatch", F: f, Add: []int{y}, Rem: []int{}, HasRel: true, Rel: rel, Tgt: tgt}
 	if g.pct(40) {
